@@ -35,6 +35,8 @@ ITEMS = [
     ("multiline_string", 'TEMPLATE = """first line\n    \nthird line\n\t\nend"""\n'),
     # the names are bound again further down (decorator-style re-assignment)
     ("rebind", "ConfigClass = register(ConfigClass)\ntrain = traced(train)\nset_cli_args = traced(set_cli_args)\n"),
+    # a function whose parameters are named like the targets
+    ("params_named_like_targets", "def register(name, ConfigClass, train=None, set_cli_args=None):\n    return name\n"),
     ("control_flow", "if (FLAG := True):\n    LIMIT = 1\nelse:\n    LIMIT = 2\ntry:\n    import json\nexcept ImportError:\n    json = None\n"),
 ]
 MEMBERS = [
@@ -200,6 +202,8 @@ class C11(core.Check):
         base = {"mode": case["mode"], "target": pj.SHORT[target], "state": case["state"], "newline": case["newline"],
                 "moddoc": case.get("moddoc", "-"),
                 "prefix": ">".join(labels[i][0] for i in case["prefix"]) or "-", "suffix": ">".join(labels[i][0] for i in case["suffix"]) or "-"}
+        if not method and any(labels[i][0] == "params_named_like_targets" for i in case["prefix"] + case["suffix"]):
+            base["params_like_targets"] = "before" if any(labels[i][0] == "params_named_like_targets" for i in case["prefix"]) else "after"
         if not method and any(labels[i][0] == "rebind" for i in case["prefix"] + case["suffix"]):
             base["rebind"] = "before" if any(labels[i][0] == "rebind" for i in case["prefix"]) else "after"
         exc, rep, out = P.sync(truth, [k for k in pj.KINDS if k in (truth, target)], "api")
